@@ -367,7 +367,12 @@ func runC05CLI(args []string) int {
 		before, _ := ioutil.ReadFile(dst)
 		var c cmd.Command
 		name := "copy"
-		if id%2 == 0 {
+		if id%3 == 2 {
+			// generate never touches an existing file (different layout, failing text output)
+			name = "generate"
+			glay := []wt.ArchiveInfo{wt.NewArchiveInfo(1, uint32(50+rnd.Intn(900)))}
+			c = &cmd.GenerateCommand{Dest: dst, Perm: 0644, AggregationMethod: wt.Sum, ArchiveInfoList: glay, RandMax: 9, Fill: true, TextOut: "/dev/full"}
+		} else if id%2 == 0 {
 			c = &cmd.CopyCommand{SrcBase: filepath.Join(base, "src"), SrcRelPath: "item1/s1.wsp", DestBase: filepath.Join(base, "dst"), DestRelPath: "item1/d.wsp",
 				AggregationMethod: wt.Sum, ArchiveInfoList: archiveInfoList(cfg), ArchiveID: cmd.ArchiveIDAll, TextOut: "/dev/full"}
 		} else {
